@@ -650,4 +650,26 @@ theorem blocked_of_take {P : Prog} {c c' : Cfg} {o : Outcome} {rest : List Instr
   · have := core_error hc rfl hs; cases this; rename_i h; exact (take_error h).1
   · have := core_error hc rfl hs; cases this; rename_i h; exact (take_error h).1
 
+
+/-- no handler call after force-quit (set after the start), in the whole rest of the execution -/
+theorem fq_no_call {P : Prog} {c0 c c1 c2 : Cfg} (h0 : Started c0) (hr : Reach P c0 c) (hA : AfterStart c)
+    (hf : c.L.forceQuit = true) (hs : Steps P c c1) (ht : Trans P c1 c2) (h : HRef) (d : Option Nat) (s : Sig) :
+    Tr.call h d s ∉ newTr c1 c2 := by
+  intro hm
+  have hf1 := (fq_persist_steps hA hf hs).2
+  have hhead := (trans_origin ht).toNewTr.2 _ hm
+  obtain ⟨_, _, _, _, hf0⟩ := (codeInv_reach h0 (reach_steps hr hs)).headCall h d s hhead
+  rw [hf1] at hf0; cases hf0
+
+theorem quit_once {P : Prog} {c0 c : Cfg} (h0 : Started c0) (hr : Reach P c0 c) :
+    c.log.countP isQuitcbEv ≤ 1 ∧ (c.log.countP isQuitcbEv = 1 → c.code = []) ∧
+    (∀ d, Ev.quitcb d ∈ c.log → c0.L.quitCb = some d) ∧ c.L.quitCb = c0.L.quitCb := by
+  obtain ⟨hq, he⟩ := quitInv_reach h0 hr
+  refine ⟨?_, ?_, hq.arg, he⟩
+  · rcases hq.count with h | ⟨h, -⟩ <;> omega
+  · intro h1
+    rcases hq.count with h | ⟨-, h⟩
+    · omega
+    · exact h
+
 end Simpleline.Dispatch
